@@ -2,8 +2,8 @@
    refutation of the unguarded discipline.  The invariant proofs of the guarded
    discipline are in ConcGuardProofs.v. *)
 From Coq Require Import String List NArith Bool Arith.
-From J5V.model Require Import Conc ConcSites ConcCorr.
-From J5V.gen Require ConcGen.
+From J5V.model Require Import Conc ConcSites ConcCorr ConcState.
+From J5V.gen Require ConcGen ConcStateGen.
 Import ListNotations.
 
 (* ---- computed agreement with the regenerated tables ----------------------- *)
@@ -43,33 +43,47 @@ Proof. vm_compute. reflexivity. Qed.
 Lemma placeholder_functions_agree : ConcGen.placeholder_functions = expected_placeholder_functions.
 Proof. vm_compute. reflexivity. Qed.
 
-(* Reflector and Codec: methods only call (no assignment to a receiver field, no map,
-   no lock); the cache is reached through SchemaCache.Schema *)
-Lemma reflector_stateless : only_calls ConcGen.reflector_methods = true /\ ConcGen.reflector_package_vars = [].
-Proof. split; vm_compute; reflexivity. Qed.
-
-Lemma codec_stateless : only_calls ConcGen.codec_methods = true /\ ConcGen.codec_package_vars = ["Global"%string].
-Proof. split; vm_compute; reflexivity. Qed.
-
 Lemma codec_entry_points_agree : ConcGen.codec_entry_points = expected_codec_entry_points.
 Proof. vm_compute. reflexivity. Qed.
 
-(* the only mutable state on the path is the cache: struct fields and package-level variables *)
-Lemma struct_fields_agree :
-  ConcGen.cache_fields = expected_cache_fields /\
-  ConcGen.reflector_fields = expected_reflector_fields /\
-  ConcGen.codec_fields = expected_codec_fields.
-Proof. repeat split; vm_compute; reflexivity. Qed.
-
-Lemma package_vars_agree :
-  ConcGen.codec_pkg_vars = expected_codec_pkg_vars /\
-  ConcGen.reflect_pkg_vars = expected_reflect_pkg_vars /\
-  ConcGen.schema_pkg_vars = expected_schema_pkg_vars /\
-  ConcGen.codec_pkg_var_writers = [] /\ ConcGen.reflect_pkg_var_writers = [] /\ ConcGen.schema_pkg_var_writers = [].
-Proof. repeat split; vm_compute; reflexivity. Qed.
-
-Lemma schema_writers_agree : ConcGen.schema_writers = expected_schema_writers.
+(* ---- the census of mutable state (go/types; ConcStateGen.v) passes every check ---------- *)
+Lemma census_holds : census_ok = true.
 Proof. vm_compute. reflexivity. Qed.
+
+(* unfolded, the load-bearing parts by name *)
+Lemma census_lf_writes_nothing :
+  lf_writes_nothing ConcStateGen.lockfree_fns ConcStateGen.state_writes = true.
+Proof. vm_compute. reflexivity. Qed.
+
+Lemma census_vars_only_initialised : vars_only_initialised ConcStateGen.state_writes = true.
+Proof. vm_compute. reflexivity. Qed.
+
+Lemma census_lf_reads_no_locked_field : lf_reads_no_locked_field ConcStateGen.lf_read_fields = true.
+Proof. vm_compute. reflexivity. Qed.
+
+Lemma census_holders : holders_hold_only_the_cache ConcStateGen.shared_fields = true.
+Proof. vm_compute. reflexivity. Qed.
+
+(* coverage in the usable direction: whatever function of the lock-free set one picks, it has
+   no reported write other than to a caller's scalar buffer or a message under construction *)
+Lemma lf_function_writes_nothing : forall w,
+  In w ConcStateGen.state_writes -> In (w_fn w) ConcStateGen.lockfree_fns -> is_benign_target (w_target w) = true.
+Proof.
+  intros w Hw Hf. pose proof census_lf_writes_nothing as H. unfold lf_writes_nothing in H.
+  rewrite forallb_forall in H. specialize (H w Hw).
+  assert (E : in_strs (w_fn w) ConcStateGen.lockfree_fns = true).
+  { unfold in_strs. apply existsb_exists. exists (w_fn w). split; [exact Hf | apply String.eqb_refl]. }
+  rewrite E in H. exact H.
+Qed.
+
+(* the checks reject the seeded regressions *)
+Lemma census_rejects_regressions :
+  lf_writes_nothing ConcStateGen.lockfree_fns (memo_write :: ConcStateGen.state_writes) = false /\
+  lf_writes_nothing ConcStateGen.lockfree_fns (memo_alias_write :: ConcStateGen.state_writes) = false /\
+  vars_only_initialised (pkg_cache_write :: ConcStateGen.state_writes) = false /\
+  holders_hold_only_the_cache (("j5reflect.Reflector.rootProps"%string, "map[string]*j5reflect.propSet"%string, true) :: ConcStateGen.shared_fields) = false /\
+  forallb shared_type_ok ("j5reflect.propSet"%string :: ConcStateGen.shared_types) = false.
+Proof. repeat split; vm_compute; reflexivity. Qed.
 
 (* ---- the unguarded discipline violates the property ------------------------ *)
 Local Open Scope N_scope.
